@@ -45,6 +45,8 @@ class TranslationError(Exception):
 # types
 # ------------------------------------------------------------------------------------------------
 INT, RAT, BOOL, STR, NONE = "int", "rat", "bool", "str", "none"
+NRAT = "nrat"      # a float that may be NaN (±inf is folded into NaN, as in Model/C06): Option Rat
+SQRT = "sqrtfun"   # np.sqrt as a parameter: Rat → Option Rat
 
 
 def opt(t):
@@ -68,6 +70,10 @@ def lean_ty(t):
         return "Bool"
     if t == STR:
         return "String"
+    if t == NRAT:
+        return "(Option Rat)"
+    if t == SQRT:
+        return "(Rat → Option Rat)"
     if isinstance(t, tuple) and t[0] == "opt":
         return f"(Option {lean_ty(t[1])})"
     if isinstance(t, tuple) and t[0] == "slice":
@@ -78,7 +84,7 @@ def lean_ty(t):
 
 
 def is_num(t):
-    return t in (INT, RAT)
+    return t in (INT, RAT, NRAT)
 
 
 def mangle(name):
@@ -140,6 +146,8 @@ class Tr:
             return e
         if t_from == INT and t_to == RAT:
             return f"(({e} : Int) : Rat)"
+        if t_to == NRAT and t_from in (INT, RAT):
+            return f"(some {self.coerce(e, t_from, RAT)})"
         if isinstance(t_to, tuple) and t_to[0] == "opt":
             if t_from == NONE:
                 return f"(none : {lean_ty(t_to)})"
@@ -156,6 +164,8 @@ class Tr:
     def join_num(self, ta, tb):
         if ta == tb and is_num(ta):
             return ta
+        if NRAT in (ta, tb) and is_num(ta) and is_num(tb):
+            return NRAT
         if is_num(ta) and is_num(tb):
             return RAT
         raise TranslationError(f"numeric operands expected, got {ta!r}, {tb!r}")
@@ -223,6 +233,8 @@ class Tr:
         d = self.dotted(node)
         if d is not None and d in env:
             return env[d]
+        if d == "np.nan":
+            return "(none : Option Rat)", NRAT
         if isinstance(node, ast.Attribute):
             base, tb = self.expr(node.value, env)
             if isinstance(tb, tuple) and tb[0] == "slice":
@@ -260,6 +272,8 @@ class Tr:
             return "(" + ", ".join(p[0] for p in parts) + ")", tup(*[p[1] for p in parts])
         if isinstance(node, ast.UnaryOp):
             e, t = self.expr(node.operand, env)
+            if isinstance(node.op, ast.USub) and t == NRAT:
+                return f"(nNeg {e})", NRAT
             if isinstance(node.op, ast.USub) and is_num(t):
                 return f"(-{e})", t
             if isinstance(node.op, ast.Not):
@@ -275,6 +289,11 @@ class Tr:
                 return f"({a} && {b})", BOOL
             if isinstance(op, ast.BitOr) and ta == BOOL and tb == BOOL:
                 return f"({a} || {b})", BOOL
+            if isinstance(op, (ast.Add, ast.Sub, ast.Mult, ast.Div)) and (NRAT in (ta, tb) or
+                                                                          (isinstance(op, ast.Div) and self.spec.get("nan_division"))):
+                self.join_num(ta, tb)
+                f = {ast.Add: "nAdd", ast.Sub: "nSub", ast.Mult: "nMul", ast.Div: "nDiv"}[type(op)]
+                return f"({f} {self.coerce(a, ta, NRAT)} {self.coerce(b, tb, NRAT)})", NRAT
             if isinstance(op, (ast.Add, ast.Sub, ast.Mult)):
                 t = self.join_num(ta, tb)
                 sym = {ast.Add: "+", ast.Sub: "-", ast.Mult: "*"}[type(op)]
@@ -316,6 +335,13 @@ class Tr:
                     parts.append(f"decide ({left} {'=' if isinstance(op, ast.Eq) else '≠'} {right})")
                 else:
                     t = self.join_num(tl, tr)
+                    if t == NRAT:
+                        f = {ast.Lt: "nLt", ast.LtE: "nLe", ast.Gt: "nGt", ast.GtE: "nGe"}.get(type(op))
+                        if f is None:
+                            raise TranslationError(f"comparison {src} on possibly-NaN values")
+                        parts.append(f"({f} {self.coerce(left, tl, NRAT)} {self.coerce(right, tr, NRAT)})")
+                        left, tl = right, tr
+                        continue
                     sym = {ast.Lt: "<", ast.LtE: "≤", ast.Gt: ">", ast.GtE: "≥", ast.Eq: "=", ast.NotEq: "≠"}.get(type(op))
                     if sym is None:
                         raise TranslationError(f"comparison {src}")
@@ -487,6 +513,16 @@ class Tr:
             for i in range(1, n):
                 acc = f"({f} {acc} {proj(e, i, n)})"
             return acc, et
+        if fname == "np.isnan" and len(args) == 1 and is_num(args[0][1]):
+            return (f"({args[0][0]}).isNone", BOOL) if args[0][1] == NRAT else ("false", BOOL)
+        if fname == "np.sqrt" and len(args) == 1 and "np.sqrt" in env and is_num(args[0][1]):
+            return f"(nBind {self.coerce(args[0][0], args[0][1], NRAT)} {env['np.sqrt'][0]})", NRAT
+        if fname in ("abs", "np.abs") and len(args) == 1 and args[0][1] == NRAT:
+            return f"(nAbs {args[0][0]})", NRAT
+        if fname == "np.maximum" and len(args) == 2 and is_num(args[0][1]) and is_num(args[1][1]):
+            t = self.join_num(args[0][1], args[1][1])
+            f = {INT: "pyMaxI", RAT: "pyMaxQ", NRAT: "nMax"}[t]
+            return f"({f} {self.coerce(args[0][0], args[0][1], t)} {self.coerce(args[1][0], args[1][1], t)})", t
         if fname in ("abs", "np.abs") and len(args) == 1 and is_num(args[0][1]):
             return (f"(pyAbsI {args[0][0]})" if args[0][1] == INT else f"(pyAbsQ {args[0][0]})"), args[0][1]
         if fname == "round" and len(args) == 1:
@@ -750,6 +786,9 @@ class Tr:
             a = self.block(list(s.body) + rest, env, k)
             b = self.block(list(s.orelse) + rest, env, k)
             return f"if {c} then\n{indent(a)}\nelse\n{indent(b)}"
+        if isinstance(s, ast.With) and all(isinstance(i.context_expr, ast.Call) and self.dotted(i.context_expr.func) == "np.errstate"
+                                           and i.optional_vars is None for i in s.items):
+            return self.block(list(s.body) + rest, env, k)       # `with np.errstate(...)`: only silences warnings
         if isinstance(s, ast.While):
             return self.loop(s, rest, env, k)
         raise TranslationError(f"statement {type(s).__name__}: {ast.unparse(s)[:80]}")
@@ -1133,6 +1172,19 @@ SPECS = [
          select=_from_stmt("bounds = (self.area_extent[0], self.area_extent[2], self.area_extent[1], self.area_extent[3])",
                            upto="from pyresample.utils.cartopy import Projection"),
          post_guard=["crs = Projection(self.crs, bounds=bounds)", "return crs"], owners=["C20"]),
+    dict(name="find_outside", file="pyresample/bilinear/_base.py", func="find_indices_outside_min_and_max",
+         params=[("data", NRAT), ("min_val", RAT), ("max_val", RAT)], returns=BOOL, select=_whole, owners=["C06"]),
+    dict(name="solve_quadratic", file="pyresample/bilinear/_base.py", func="_solve_quadratic",
+         params=[("np.sqrt", SQRT), ("a__", RAT), ("b__", RAT), ("c__", RAT), ("min_val", RAT), ("max_val", RAT)], returns=NRAT,
+         select=_whole, nan_division=True, identity_calls=["_ensure_array"],
+         inline={"find_indices_outside_min_and_max": dict(lean="find_outside", args=[NRAT, RAT, RAT], returns=BOOL)}, owners=["C06"]),
+    dict(name="solve_another", file="pyresample/bilinear/_base.py", func="_solve_another_fractional_distance",
+         params=[("f__", NRAT), ("y_corners", tup(RAT, RAT, RAT, RAT)), ("out_y", RAT)], returns=NRAT, select=_whole, nan_division=True,
+         inline={"find_indices_outside_min_and_max": dict(lean="find_outside", args=[NRAT, RAT, RAT], returns=BOOL)}, owners=["C06"]),
+    dict(name="bil_parallelogram", file="pyresample/bilinear/_base.py", func="_get_fractional_distances_parallellogram",
+         params=[("points", tup(tup(RAT, RAT), tup(RAT, RAT), tup(RAT, RAT))), ("out_y", RAT), ("out_x", RAT)],
+         returns=tup(NRAT, NRAT), select=_whole, nan_division=True,
+         inline={"find_indices_outside_min_and_max": dict(lean="find_outside", args=[NRAT, RAT, RAT], returns=BOOL)}, owners=["C06"]),
     # ---- C13 -----------------------------------------------------------------------------------
     dict(name="validate_variable2", file="pyresample/area_config.py", func="_validate_variable", raises=True,
          params=[("var", opt(tup(RAT, RAT))), ("new_var", tup(RAT, RAT))], returns=tup(RAT, RAT), select=_whole, owners=["C13"]),
@@ -1210,8 +1262,11 @@ class Tr3(Tr):
     def expr(self, node, env):
         if isinstance(node, ast.Attribute):
             d = self.dotted(node)
-            if d not in env:
-                base, tb = Tr.expr(self, node.value, env)
+            if d not in env and d != "np.nan":
+                try:
+                    base, tb = Tr.expr(self, node.value, env)
+                except TranslationError:
+                    base, tb = None, None
                 if isinstance(tb, tuple) and tb[0] == "slice3" and node.attr in ("start", "stop", "step"):
                     return f"({base}).{node.attr}", tb[1]
         return Tr.expr(self, node, env)
